@@ -70,6 +70,10 @@ def run(eng, ctx):
     ctx.touch(func=ph.qualname)
     msgp = ("param", pm.params[0])
     se = eng.symeval(pm.qualname)
+    # the helpers find attributes by name: the parser's naming rule (C03-D4) is a shared obligation
+    from . import decoder as DEC
+
+    DEC.naming(eng, ctx, "C03.D4", DEC.DecoderModel(eng))
 
     # ---- probe lists: getattr(msg, f"{elem(list)}_{elem(range(1, msg.X + 1)):02d}")
     probes = {}  # counter attr -> (names, sep, spec, effect)
